@@ -385,6 +385,7 @@ fn replay(lines: &[String], nslots: usize, nalloc: usize, nthreads: usize) -> (u
     let mut failures = vec![];
     let mut steps = 0;
     for (bi, line) in lines.iter().enumerate() {
+        vkit::mark(bi);
         let beh: Value = serde_json::from_str(line).expect("behaviour json");
         let base = ledger::snap();
         BAD.store(0, SeqCst);
